@@ -127,6 +127,28 @@ def main():
             meta["ran"].append("demo.py without and with the change")
             meta["confirmed"] = bool(rc0 == 0 and rc1 != 0 and "passed" in meta.get("tests_with_change", "passed")
                                      and "failed" not in meta.get("tests_with_change", ""))
+            cb = os.path.join(d, "confirm_base")
+            if not meta["confirmed"] and os.path.exists(cb):
+                # the demonstration needs a trigger that a later fix: commit removed; the change is then confirmed on
+                # the commit it was written against, and the checks still run on HEAD + change
+                base = open(cb).read().split()[0]
+                T2 = tempfile.mkdtemp(prefix="seedtest.", dir="/tmp")
+                try:
+                    sh(f"git -C /repo archive {base} | tar -x -C {T2}")
+                    env2 = dict(os.environ, PYTHONPATH=T2)
+                    r0, _ = sh(f"/venv/bin/python -W ignore {d}/demo.py", env=env2, cwd=T2, timeout=1800)
+                    ra, _ = sh(f"cd {T2} && git init -q . && git apply --whitespace=nowarn {d}/patch.diff")
+                    rt, ot = sh("/venv/bin/python -m pytest -q -p no:cacheprovider -x 2>&1 | tail -1", env=env2, cwd=T2,
+                                timeout=1800)
+                    r1, _ = sh(f"/venv/bin/python -W ignore {d}/demo.py", env=env2, cwd=T2, timeout=1800)
+                    meta["confirm_base"] = {"commit": base, "patch_applies": ra == 0, "tests_with_change": ot.strip()[-80:],
+                                            "demo_exit_without_change": r0, "demo_exit_with_change": r1,
+                                            "why": " ".join(open(cb).read().split()[1:])}
+                    meta["confirmed_on_confirm_base"] = bool(ra == 0 and r0 == 0 and r1 != 0 and "passed" in ot
+                                                             and "failed" not in ot)
+                    meta["ran"].append(f"tests + demo.py without and with the change on a scratch copy of {base}")
+                finally:
+                    shutil.rmtree(T2, ignore_errors=True)
             checks = {}
             for p in (props_override or [pid]):
                 envc = dict(os.environ, LBFGSB_REPO=T)
@@ -140,6 +162,8 @@ def main():
             meta["checks"] = checks
             meta["detected"] = any(c["exit"] == 1 for c in checks.values())
             meta["wall_s"] = round(time.time() - t0, 1)
+            if meta.get("confirmed_on_confirm_base"):
+                print(f"{name}: latent on HEAD; confirmed on {meta['confirm_base']['commit']}")
             print(f"{name}: confirmed={meta['confirmed']} detected={meta['detected']} "
                   + " ".join(f"{p}:exit{c['exit']}" for p, c in checks.items()) + f" ({meta['wall_s']}s)")
             for p, c in checks.items():
